@@ -32,6 +32,10 @@ def set_items(n, m):
 SPELL = [lambda f: f, lambda f: "./" + f, lambda f: f"{WD}/{f}", lambda f: f"{WD}/d/../{f}", lambda f: "d/../" + f, lambda f: f"../{os.path.basename(WD)}/{f}", lambda f: "d//..//" + f]
 
 
+# file j of the pool; the first two names differ only in Unicode normal form (two different files on Linux)
+FNAME = ["f\u00e9", "fe\u0301", "f2", "f3", "f4", "f5"]
+
+
 def eval_set(tset, existing, order, spell_off=0):
     from gwf.core import Graph
 
@@ -41,10 +45,10 @@ def eval_set(tset, existing, order, spell_off=0):
     k = itertools.count(spell_off)
     for idx in order:
         ins, outs = tset[idx]
-        sp = lambda j: SPELL[next(k) % len(SPELL)](f"f{j}") if spell_off else f"f{j}"
+        sp = lambda j: SPELL[next(k) % len(SPELL)](FNAME[j]) if spell_off else FNAME[j]
         targets[f"T{idx}"] = gwfh.mk_target(f"T{idx}", [sp(j) for j in ins], [sp(j) for j in outs])
-    universe = [f"{WD}/f{j}" for j in range(m)]
-    fs = gwfh.mk_fs({f"{WD}/f{j}": 1.0 for j in existing}, universe)
+    universe = [f"{WD}/{FNAME[j]}" for j in range(m)]
+    fs = gwfh.mk_fs({f"{WD}/{FNAME[j]}": 1.0 for j in existing}, universe)
     try:
         Graph.from_targets(targets, fs)
         return "ok"
@@ -53,8 +57,8 @@ def eval_set(tset, existing, order, spell_off=0):
 
 
 def ref_set(tset, existing):
-    tl = [(f"T{i}", [f"{WD}/f{j}" for j in ins], [f"{WD}/f{j}" for j in outs]) for i, (ins, outs) in enumerate(tset)]
-    return G.classify(tl, {f"{WD}/f{j}" for j in existing})
+    tl = [(f"T{i}", [f"{WD}/{FNAME[j]}" for j in ins], [f"{WD}/{FNAME[j]}" for j in outs]) for i, (ins, outs) in enumerate(tset)]
+    return G.classify(tl, {f"{WD}/{FNAME[j]}" for j in existing})
 
 
 def sets_batch(acc, batch, m=2, spell_offs=(0,)):
